@@ -103,6 +103,9 @@ func genGraph(r *core.Rand, race bool) *graphCase {
 	maxNodes := 4
 	if long {
 		gc.T = []int{4095, 4096, 5000, 8192, 10000}[r.Intn(5)]
+		if race {
+			gc.T = []int{4096, 4097, 5000}[r.Intn(3)] // the -race build is 5-10x slower
+		}
 		gc.G = r.IntRange(2, 4)
 		nm = r.IntRange(2, 3)
 		maxNodes = 2
@@ -169,6 +172,30 @@ func genGraph(r *core.Rand, race bool) *graphCase {
 			anyInputs = true
 			for k := 0; k < total; k++ {
 				m.Inputs = append(m.Inputs, GenInputs(name, r, gc.T, m.Sets[k]))
+			}
+			// pass-through sources with sign patterns that flows and loads do not have but that links must carry all the
+			// same: series that never rise above zero, all-zero series, a single non-zero value
+			if name == "Input" || name == "Sum" || name == "ApplyScalingFactor" {
+				for k := 0; k < total; k++ {
+					for j := range m.Inputs[k] {
+						switch r.Intn(6) {
+						case 0:
+							for t := range m.Inputs[k][j] {
+								m.Inputs[k][j][t] = -math.Abs(m.Inputs[k][j][t])
+								if r.Bool(0.4) {
+									m.Inputs[k][j][t] = 0
+								}
+							}
+						case 1:
+							for t := range m.Inputs[k][j] {
+								m.Inputs[k][j][t] = 0
+							}
+							if r.Bool(0.5) {
+								m.Inputs[k][j][r.Intn(gc.T)] = r.Range(-5, 5)
+							}
+						}
+					}
+				}
 			}
 		}
 		// initial states: the model's own
